@@ -27,7 +27,7 @@ func init() {
 	hx.Register(&hx.Prop{
 		ID:    "C16",
 		Level: "exploration",
-		Rule: "full product of producer configurations generated with the openssl CLI at check time: tool {smime, cms} x S/MIME capabilities {default, -nosmimecap} x {detached, -nodetach} x certificates {included, -nocerts} x extra signed attributes {none, cms -cades} x content {empty, 1, 64, 70000 bytes} x RSA {2048; thorough 3072, 4096} x certificate {short issuer, long multi-RDN issuer with a 20-byte high-bit serial}; " +
+		Rule: "full product of producer configurations generated with the openssl CLI at check time: tool {smime, cms} x S/MIME capabilities {default, -nosmimecap} x {detached, -nodetach} x certificates {included, -nocerts} x extra signed attributes {none, cms -cades} x content {empty, 1, 64, 70000 bytes} x RSA {2048; thorough 3072, 4096} x certificate {short issuer, long multi-RDN issuer with a 20-byte high-bit serial, CA-issued leaf}; " +
 			"plus the sbsign / sbvarsign artefacts shipped with the repository (signature files, the signed PE image, six .auth descriptors). " +
 			"oracle: every blob parses; blobs with signed attributes verify against the signer's certificate and not against another certificate nor against one with the same issuer+serial and another key; " +
 			"the attribute block cut out of the blob (re-tagged SET) equals Attributes.Marshal() of the parsed values byte for byte, and is what the RSA signature verifies over (independent check). " +
@@ -64,6 +64,12 @@ func c16Judge(c *hx.Ctx, blob []byte, signer *x509.Certificate, label string, pr
 		c.Note("reference cannot read %s: %v", label, rerr)
 		return
 	}
+	pristine := append([]byte{}, blob...)
+	defer func() {
+		if !bytes.Equal(blob, pristine) {
+			bad("parsing/verifying modifies the signature bytes it was given", nil)
+		}
+	}()
 	var p *pkcs7.PKCS7
 	var err error
 	if pn := hx.Try(func() { p, err = pkcs7.ParsePKCS7(blob) }); pn != nil {
@@ -200,7 +206,7 @@ func c16Run(c *hx.Ctx, tier, unit string) {
 			c.Note("long certificate: %v", err)
 			return
 		}
-		certs := []*x509.Certificate{keys.C(k), long}
+		certs := []*x509.Certificate{keys.C(k), long, keys.Leaf(k)}
 		contents := []int{0, 1, 64, 70000}
 		if tier != "thorough" {
 			contents = []int{0, 64}
